@@ -170,16 +170,16 @@ func runPanic(m *model.Model, s *ob.Set) {
 	for _, k := range keys {
 		t, ok := panicTable[k]
 		switch {
-		case ok && len(counts[k]) <= t.n:
-			s.Ok(R, k, counts[k][0], fmt.Sprintf("%s (%d site(s)): %s", t.class, len(counts[k]), t.why))
 		case ok:
-			s.Bad(R, k, counts[k][0], fmt.Sprintf("%d sites, the table allows %d", len(counts[k]), t.n), counts[k]...)
+			// the tabled argument is about the function's contract and this message, not about
+			// how many statements raise it (a branch split in two repeats its panic)
+			s.Ok(R, k, counts[k][0], fmt.Sprintf("%s (%d site(s)): %s", t.class, len(counts[k]), t.why))
 		default:
 			s.Bad(R, k, counts[k][0], "a panic site that satisfies no discharge rule and is not tabled: a new way for a valid call to panic", counts[k]...)
 		}
 	}
 	if total < 10 {
-		model.Blind("PANIC: only %d reachable panic sites found", total)
+		m.Blind("PANIC: only %d reachable panic sites found", total)
 	}
 }
 
